@@ -264,3 +264,43 @@ func (e *Env) CheckFileSet(what string) error {
 	e.St.FileChecks++
 	return nil
 }
+
+// DumpTable lists the entries of a table file (debugging aid).
+func (e *Env) DumpTable(num int64) []string {
+	fd := storage.FileDesc{Type: storage.TypeTable, Num: num}
+	n, _, _, ok := e.FS.FileInfo(fd)
+	if !ok {
+		return []string{"missing"}
+	}
+	r, err := e.FS.Open(fd)
+	if err != nil {
+		return []string{err.Error()}
+	}
+	defer r.Close()
+	icmp := leveldb.VerifInternalComparer(e.Cmp)
+	ro := &opt.Options{Comparer: icmp, Strict: opt.StrictAll, BlockSize: e.O.GetBlockSize(), Filter: e.O.GetFilter(), AltFilters: e.O.AltFilters}
+	tr, err := table.NewReader(r, int64(n), fd, nil, nil, ro)
+	if err != nil {
+		return []string{err.Error()}
+	}
+	defer tr.Release()
+	it := tr.NewIterator(nil, nil)
+	defer it.Release()
+	var out []string
+	for it.Next() {
+		uk, seq, kind, perr := leveldb.VerifParseInternalKey(it.Key())
+		if perr != nil {
+			out = append(out, fmt.Sprintf("unparsable %x", it.Key()))
+			continue
+		}
+		uks := fmt.Sprintf("%q", uk)
+		if len(uks) > 40 {
+			uks = uks[:40] + "…"
+		}
+		out = append(out, fmt.Sprintf("%s seq=%d kind=%v vlen=%d", uks, seq, kind, len(it.Value())))
+	}
+	if err := it.Error(); err != nil {
+		out = append(out, "iterate: "+err.Error())
+	}
+	return out
+}
